@@ -4,7 +4,7 @@ from lib.coqterm import cbytes, cbool, copt, clist, cpair, cN, cZ, hx, unhx
 
 ID = "C35"
 QUICK_N = 2500
-THOROUGH_N = 40000
+THOROUGH_N = 25000
 SHARD = 250
 COQ_PRELUDE = "From MV Require Import Model.Headers.\n"
 RULE = ("60% operation histories on two Headers objects (0-25 ops: getitem/in/setitem/del/get_all/set_all/add/insert/"
